@@ -114,6 +114,17 @@ fn declaration_family(thorough: bool) -> Vec<(String, Files)> {
         }
         v.push((format!("near-names mask={:08b}", mask), one_file(&format!("{}{}f :: fn do\n{}    print(scale_z)\nend\n{}", hdr, globals, locals, start))));
     }
+    // the same with many names in scope: N globals of equal length (all equally near), and N locals
+    for n in [8usize, 33, 64, 65, 66, 100, 129, 257] {
+        let globals: String = (0..n).map(|i| format!("val_{:03}x :: {}\n", i, i)).collect();
+        v.push((format!("near-names among {} globals", n), one_file(&format!("{}{}f :: fn do\n    print(val_zzzx)\nend\n{}", hdr, globals, start))));
+        if n <= 129 {
+            let locals: String = (0..n).map(|i| format!("    loc_{:03}x := {}\n", i, i)).collect();
+            v.push((format!("near-names among {} locals", n), one_file(&format!("{}f :: fn do\n{}    print(loc_zzzx)\nend\n{}", hdr, locals, start))));
+            let fields: String = (0..n).map(|i| format!("    fld_{:03}x: int,\n", i)).collect();
+            v.push((format!("near-names among {} fields", n), one_file(&format!("{}W :: blob {{\n{}}}\nf :: fn w: W do\n    print(w.fld_zzzx)\nend\n{}", hdr, fields, start))));
+        }
+    }
     // repeated parameter names, repeated type variables, repeated case arms, repeated imports
     for (id, body) in [
         ("params a, a", "f :: fn a: int, a: str do\n    print(a)\nend\n"),
@@ -226,6 +237,15 @@ pub fn run(run: &mut Run) {
     for (k, (fam, p)) in crate::stmtfam::all_programs_len(1).into_iter().enumerate() {
         if k % 3 == 0 {
             inputs.push((format!("family:{}#{}", fam, k), one_file(&crate::ast::print_program(&p).text), true));
+        }
+    }
+    {
+        let mut scale = Vec::new();
+        crate::stmtfam::scale_programs(false, &mut scale);
+        for (k, (fam, p)) in scale.into_iter().enumerate() {
+            if k % 3 == 0 {
+                inputs.push((format!("family:{}#{}", fam, k), one_file(&crate::ast::print_program(&p).text), true));
+            }
         }
     }
     // two independent planted faults in two functions of one file
